@@ -380,24 +380,36 @@ class RefServer:
     def sval(self, a):
         return a[1].decode("utf-8", "replace")
 
+    N_TEXT_FORMS = 6
+
     def _text_choice(self, text):
-        """status text: as given quoted (default) | as literal | quoted text containing {digits} look-alikes"""
+        """-> (text, literal?, response code or None). Forms of a status text: 0 as given, quoted | 1 literal | 2 quoted text with {digits}
+        look-alikes | 3 response code + literal | 4 response code + two-line literal whose second line starts like a status line |
+        5 response code + quoted"""
         if not self.authenticated:
-            return text, False
-        c = self.ch.choose("status-text-form", 3)
+            return text, False, None
+        c = getattr(self, "status_form", None)
+        if c is None:
+            c = self.ch.choose("status-text-form", self.N_TEXT_FORMS)
         if c == 1:
-            return text, True
+            return text, True, None
         if c == 2:
-            return text + b" {1} ${2}", False
-        return text, False
+            return text + b" {1} ${2}", False, None
+        if c == 3:
+            return text, True, b'TAG "t1"'
+        if c == 4:
+            return text + b"\r\nOK, done", True, b"WARNINGS"
+        if c == 5:
+            return text, False, b'TAG "t1"'
+        return text, False, None
 
     def ok(self, text):
-        text, lit = self._text_choice(text)
-        self.emit(status(b"OK", None, text, literal=lit))
+        text, lit, rc = self._text_choice(text)
+        self.emit(status(b"OK", rc, text, literal=lit))
 
     def no(self, rcode, text):
-        text, lit = self._text_choice(text)
-        self.emit(status(b"NO", rcode, text, literal=lit))
+        text, lit, rc = self._text_choice(text)
+        self.emit(status(b"NO", rcode if rcode is not None else rc, text, literal=lit))
 
     def do_CAPABILITY(self, args):
         self.emit(self.capability_lines())
@@ -580,7 +592,7 @@ class RefServer:
             rcode = b"SASL " + enc_quoted(base64.b64encode(sasl if sasl is not None else b"final"))
         if self.auth_ok:
             self.authenticated = True
-            text, lit = self._text_choice(b"Logged in.")
+            text, lit, _rc = self._text_choice(b"Logged in.")
             self.emit(status(b"OK", rcode, text, literal=lit))
         else:
             self.no(rcode, b"Authentication failed.")
